@@ -263,6 +263,8 @@ def run_property(pid, tier, seedv, only=None, jobs=None):
         try:
             for r in pool.imap_unordered(run_task, tasks, chunksize=1):
                 results.append(r)
+                if r['failures'] and os.environ.get('HX_FAILFAST'):
+                    break       # sensitivity runs only need to know that the check fails
         finally:
             pool.terminate()
             pool.join()
@@ -300,7 +302,7 @@ def run_property(pid, tier, seedv, only=None, jobs=None):
         pl = per_law[law.name]
         pl['nontrivial'] += len(pl['digests'])
         for req in law.required:
-            if pl['classes'].get(req, 0) == 0 and not pl['failures']:
+            if pl['classes'].get(req, 0) == 0 and not pl['failures'] and not (os.environ.get('HX_FAILFAST') and any(x['failures'] for x in per_law.values())):
                 herrs.append('vacuity guard: law %s never produced class %r' % (law.name, req))
     # failures -> replay files + lines
     viol_lines = []
